@@ -7,6 +7,7 @@ import (
 	"math/rand"
 	"os"
 	"os/exec"
+	"sync"
 	"syscall"
 	"time"
 
@@ -74,18 +75,28 @@ func ProcChildMain() int {
 	}
 	mine, theirs := fds[0], fds[1]
 	ch := genChoices(rand.New(rand.NewSource(sp.ChoiceSeed)), sp.NUE)
-	closed := false
-	closeMine := func() {
-		if !closed {
-			closed = true
-			syscall.Shutdown(mine, syscall.SHUT_RDWR) // closed by the reader goroutine when it returns (no descriptor reuse under its feet)
+	var fdMu sync.Mutex
+	fdClosed := false
+	closeMine := func() { // the peer sees the AMF going away; the descriptor itself is closed by the reader goroutine when it returns
+		fdMu.Lock()
+		defer fdMu.Unlock()
+		if !fdClosed {
+			syscall.Shutdown(mine, syscall.SHUT_RDWR)
+		}
+	}
+	reallyClose := func() {
+		fdMu.Lock()
+		defer fdMu.Unlock()
+		if !fdClosed {
+			fdClosed = true
+			syscall.Close(mine)
 		}
 	}
 	amf := refamf.New(sp.Cfg.AMFConfig(), ch, refamf.Fault{At: sp.FaultAt, Kind: sp.FaultKind}, func(b []byte) error { _, e := syscall.Write(mine, b); return e }, closeMine)
 	done := make(chan struct{})
 	go func() {
 		defer close(done)
-		defer syscall.Close(mine)
+		defer reallyClose()
 		buf := make([]byte, 1<<16)
 		for {
 			n, err := syscall.Read(mine, buf)
